@@ -36,8 +36,8 @@ class SizeModel(Cacheable):
     recalculate_column_headers = _NumbersModel.recalculate_column_headers
     number_of_columns = _NumbersModel.number_of_columns
 
-    def __init__(self, row_headers, col_headers, data):
-        table = Rec(default_row_height=20.0, default_column_width=98.0, number_of_columns=len(data[0]), number_of_rows=len(data),
+    def __init__(self, row_headers, col_headers, data, default_h=20.0, default_w=98.0):
+        table = Rec(default_row_height=default_h, default_column_width=default_w, number_of_columns=len(data[0]), number_of_rows=len(data),
                     base_data_store=Rec(rowHeaders=Rec(buckets=[Rec(identifier=30)]), columnHeaders=Rec(identifier=31)))
         self.objects = {7: table, 30: Rec(headers=row_headers), 31: Rec(headers=col_headers)}
         self._row_heights = {}
@@ -49,7 +49,7 @@ def header(eng=None, **kw):
     return Rec(**kw)
 
 
-def h16a_sizes(h1, w1, border, query_first, set_h, new_h, cycles, nrows, merged_col):
+def h16a_sizes(h1, w1, border, query_first, set_h, new_h, cycles, nrows, merged_col, defaults):
     """stored row heights / column widths come back equal after 1..3 save/reopen cycles, whether or not they were queried
     before saving; a height set through the API is the one stored"""
     assume(1 <= h1 <= 10000 and 1 <= w1 <= 10000 and 1 <= new_h <= 10000)
@@ -64,7 +64,8 @@ def h16a_sizes(h1, w1, border, query_first, set_h, new_h, cycles, nrows, merged_
     rows = [Rec(index=r, numberOfCells=2, size=0.0, hidingState=0) for r in range(last)]
     rows.append(Rec(index=last, numberOfCells=2, size=float(h1), hidingState=0))
     cols = [Rec(index=0, numberOfCells=2, size=float(w1), hidingState=0), Rec(index=1, numberOfCells=2, size=0.0, hidingState=0)]
-    m = SizeModel(rows, cols, data)
+    default_h, default_w = defaults           # the table's own default row height / column width
+    m = SizeModel(rows, cols, data, default_h, default_w)
     first_h = None
     if query_first:
         first_h = m.row_height(7, last)
@@ -76,7 +77,7 @@ def h16a_sizes(h1, w1, border, query_first, set_h, new_h, cycles, nrows, merged_
         m.recalculate_row_headers(7, data)
         m.recalculate_column_headers(7, data)
         # reopen: a fresh model over the written header buckets
-        m = SizeModel(m.objects[30].headers, m.objects[31].headers, data)
+        m = SizeModel(m.objects[30].headers, m.objects[31].headers, data, default_h, default_w)
         got_h = m.row_height(7, last)
         got_w = m.col_width(7, 0)
         if want_h is None:
@@ -85,7 +86,7 @@ def h16a_sizes(h1, w1, border, query_first, set_h, new_h, cycles, nrows, merged_
             want_w = got_w
         assert got_h == want_h
         assert got_w == want_w
-        assert m.row_height(7, 0) == 20 and m.col_width(7, 1) == 98      # defaults stay defaults
+        assert m.row_height(7, 0) == round(default_h) and m.col_width(7, 1) == round(default_w)      # defaults stay defaults
         hs = m.objects[30].headers
         assert len(hs) == nrows
         for r in range(nrows):
@@ -117,10 +118,12 @@ def h16b_header_counts(n, R, C, rows):
 HARNESSES = [
     Harness("H16a", h16a_sizes,
             dict(h1=BVDom(14), w1=BVDom(14), border=Cases([0.0, 1.0, 3.0]), query_first=BoolDom(), set_h=BoolDom(), new_h=BVDom(14),
-                 cycles=Cases([1, 2, 3]), nrows=Cases([2, 258]), merged_col=Cases([False, True])),
+                 cycles=Cases([1, 2, 3]), nrows=Cases([2, 258]), merged_col=Cases([False, True]),
+                 defaults=Cases([(20.0, 98.0), (22.0, 80.0)])),
             bounds="stored height/width: every integer number of points 1..10000 (symbolic); border widths {0, 1, 3}; queried or "
                    "not before saving; height set through the API or not; 1..3 save/reopen cycles; the sized row is the last of 2 or of 258 rows (second tile); "
-                   "the sized column has cells of its own or is completely covered by a merge",
+                   "the sized column has cells of its own or is completely covered by a merge; "
+                   "table defaults equal to the library-wide constants (20 / 98) or not (22 / 80)",
             stubs=["object store and header records = attribute bags; Header constructor = attribute bag"],
             outside=["names, captions, visibility, coordinates (protobuf attribute pass-through and I/O)", "non-integral stored sizes"],
             models={TSTArchives.HeaderStorageBucket.Header: header}),
